@@ -24,8 +24,8 @@ def real_sources(exclude=()):
     return [s for s in srcs if os.path.basename(s) not in exclude]
 
 
-def build(name, sources, root, extra=(), with_real=True, exclude=()):
-    """gcc build of a native tool; cached per run directory."""
+def build(name, sources, root, extra=(), with_real=True, exclude=(), cc="gcc"):
+    """gcc (or clang) build of a native tool; cached per run directory."""
     with _lock:
         key = (name, root)
         if key in _built:
@@ -33,7 +33,7 @@ def build(name, sources, root, extra=(), with_real=True, exclude=()):
         d = os.path.join(root, "native")
         os.makedirs(d, exist_ok=True)
         exe = os.path.join(d, name)
-        cmd = ["gcc", "-O1", "-g", "-w", "-D_GNU_SOURCE", "-I" + os.path.join(REPO, "src"), "-I" + os.path.join(VERIF, "spec"),
+        cmd = [cc, "-O1", "-g", "-w", "-D_GNU_SOURCE", "-I" + os.path.join(REPO, "src"), "-I" + os.path.join(VERIF, "spec"),
                "-I" + os.path.join(VERIF, "native"), "-I" + os.path.join(VERIF, "include")] + CONF + list(extra)
         cmd += [os.path.join(VERIF, s) for s in sources]
         if with_real:
@@ -208,3 +208,19 @@ def trng_campaign(tier, seed, root):
 def trng_replay(job, vals, seed, root):
     r = trng_campaign("quick", seed, root)
     return {"reproduced": bool(r.get("violation")), "cmd": r.get("cmd"), "text": r["text"]}
+
+
+def aead_compilers(tier, seed, root):
+    """Supporting test (not a proof): the AEAD/SIV differential campaign with the library built by clang -O2 and gcc -O3 as well -
+    results must not depend on the compiler or optimisation level (unspecified evaluation order, UB exploited by one compiler)."""
+    texts = []
+    for cc, opt in (("clang", "-O2"), ("gcc", "-O3")):
+        exe = build("diff_aead_%s%s" % (cc, opt), ["native/diff_aead.c"], root, extra=[opt], cc=cc)
+        iters = 1500 if tier == "quick" else 20000
+        rc, out, secs = run_tool(exe, ["campaign", seed, iters], root)
+        cmd = "native/diff_aead (library built with %s %s) campaign %d %d" % (cc, opt, seed, iters)
+        if rc != 0:
+            return {"violation": True, "name": "native.diff_aead.%s" % cc, "obligation": "real library built with %s %s == reference model" % (cc, opt),
+                    "text": "\n".join(_fail_lines(out)) or out[-300:], "cmd": cmd, "reproduced": True}
+        texts.append("%s %s: %s" % (cc, opt, out.strip().split("\n")[-1]))
+    return {"text": "compiler/optimisation-level differential test (a test, not a proof): " + "; ".join(texts)}
